@@ -486,3 +486,29 @@ Proof. vm_compute. reflexivity. Qed.
 (* the identity resolver (no symlink in the table) meets the hypothesis asked of `resolve` *)
 Lemma resolve_of_nil_wf : forall p, wf_path p -> wf_path (resolve_of [] p).
 Proof. intros p H. exact H. Qed.
+
+(* F18: the replacement of an EARLIER word is a str.replace over the whole text; when that word
+   (a relative path that exists) also occurs inside a LATER word (the same file by its absolute
+   path), the later word is rewritten in passing, is then no longer found by its own str.replace,
+   and its absolute directory stays in the output *)
+Definition P_D2 : path := mkPath 1 [[100; 97; 116; 97]; [100; 50]].                                       (* /data/d2 *)
+Definition P_SUB : path := mkPath 1 [[100; 97; 116; 97]; [100; 50]; [115; 117; 98]].                      (* /data/d2/sub *)
+Definition P_SUBX : path := mkPath 1 [[100; 97; 116; 97]; [100; 50]; [115; 117; 98]; [120; 46; 104; 53]]. (* /data/d2/sub/x.h5 *)
+Definition P_RELX : path := mkPath 0 [[115; 117; 98]; [120; 46; 104; 53]].                                (* sub/x.h5, seen from /data/d2 *)
+Definition HOST18 : list path := [P_DATA; P_D2; P_SUB; P_SUBX; P_RELX].
+Definition T_REL : str := [115; 117; 98; 47; 120; 46; 104; 53].                                            (* sub/x.h5 *)
+Definition T_ABS : str := [47; 100; 97; 116; 97; 47; 100; 50; 47; 115; 117; 98; 47; 120; 46; 104; 53].    (* /data/d2/sub/x.h5 *)
+Definition T_BOTH : str := T_REL ++ [32] ++ T_ABS.
+Definition T_OUT18 : str := [120; 46; 104; 53; 32; 47; 100; 97; 116; 97; 47; 100; 50; 47; 120; 46; 104; 53].   (* x.h5 /data/d2/x.h5 *)
+
+Lemma cross_word_replacement_leaks :
+  sanitize_str (ex_of HOST18) (resolve_of []) P_SRC T_BOTH = SOk T_OUT18 /\ leaks (ex_of HOST18) T_OUT18 /\
+  (* each of the two words on its own is sanitised *)
+  sanitize_str (ex_of HOST18) (resolve_of []) P_SRC T_REL = SOk [120; 46; 104; 53] /\
+  sanitize_str (ex_of HOST18) (resolve_of []) P_SRC T_ABS = SOk [120; 46; 104; 53].
+Proof.
+  split; [vm_compute; reflexivity|]. split.
+  - exists [120; 46; 104; 53; 32], [47; 100; 97; 116; 97; 47; 100; 50], [47; 120; 46; 104; 53].
+    split; [reflexivity|]. split; [reflexivity|]. split; [reflexivity|]. split; [discriminate | vm_compute; reflexivity].
+  - split; vm_compute; reflexivity.
+Qed.
